@@ -106,10 +106,19 @@ class Recorder:
             cex = smt.model_dict(model, names)
             rec["cex"] = smt.jsonable(cex)
             if replay is not None and not os.environ.get("SYMX_MUTANT_RUN"):
-                try:
-                    ok, detail = replay(cex)
-                except Exception as e:  # replay machinery failed: harness error
-                    ok, detail = None, {"error": repr(e), "trace": traceback.format_exc()[-1500:]}
+                # one violation class (key) is replayed until it reproduces once, at most 3 times: further counterexamples of the
+                # same class reuse that verdict (replays of whole models take seconds each)
+                cache = self.__dict__.setdefault("_replay_cache", {})
+                prev = cache.setdefault(rec["key"], [])
+                hit = next((x for x in prev if x[0]), None) or (prev[-1] if len(prev) >= 3 else None)
+                if hit is not None:
+                    ok, detail = hit[0], {**(hit[1] if isinstance(hit[1], dict) else {"detail": hit[1]}), "replay_shared_with_same_class": True}
+                else:
+                    try:
+                        ok, detail = replay(cex)
+                    except Exception as e:  # replay machinery failed: harness error
+                        ok, detail = None, {"error": repr(e), "trace": traceback.format_exc()[-1500:]}
+                    prev.append((ok, detail))
                 rec["reproduced"] = ok
                 rec["replay_detail"] = smt.jsonable(detail)
             else:
